@@ -10,6 +10,19 @@ import sys
 
 ENV = dict(os.environ, GOFLAGS="-mod=mod", GOPROXY="off", GOSUMDB="off", GOTOOLCHAIN="local")
 PROPS = ["C%02d" % i for i in range(1, 21)]
+SCHED = ["C01", "C03", "C05", "C06", "C07", "C08", "C09", "C12", "C19"]
+GEN = ["C02", "C04", "C10", "C11", "C13", "C15", "C17", "C18", "C20"]
+
+
+def family(pid, patch):
+    """the checks worth running for a change: those whose ties look at the files it touches"""
+    txt = open(patch).read()
+    fam = {pid}
+    if "scheduler/" in txt:
+        fam |= set(SCHED) | {"C02", "C10"}
+    if "internal/" in txt or "emitter" in txt or "cmd/cff" in txt:
+        fam |= set(GEN) | {"C01", "C03", "C06", "C07", "C09", "C14", "C16"}
+    return [p for p in PROPS if p in fam]
 
 
 def sh(cmd, cwd=None, timeout=3600):
@@ -28,6 +41,8 @@ def main():
     path = os.path.join(base, "_matrix.json")
     res = json.load(open(path)) if os.path.exists(path) else {}
     for pid, k in seeds:
+        if "%s/%s" % (pid, k) in res and not os.environ.get("REDO"):
+            continue
         rc, out = sh("git -C /repo status --porcelain")
         if out.strip():
             print("repo not clean", out)
@@ -38,7 +53,7 @@ def main():
             continue
         row = {}
         try:
-            for p in PROPS:
+            for p in family(pid, "%s/%s/%s/patch.diff" % (base, pid, k)):
                 rc, out = sh("./check %s --tier quick" % p, cwd="/verif", timeout=3000)
                 lines = [l for l in out.split("\n") if l.startswith("VIOLATION") or l.startswith("OK ")]
                 last = lines[-1] if lines else "?"
@@ -58,7 +73,7 @@ def main():
             sh("git -C /repo checkout -- . && git -C /repo clean -fdq")
         res["%s/%s" % (pid, k)] = row
         json.dump(res, open(path, "w"), indent=1)
-        print(pid, k, "home:", row.get(pid, "?")[:120], "| alarms:", [p for p in PROPS if row[p] != "ok"], flush=True)
+        print(pid, k, "home:", row.get(pid, "?")[:120], "| alarms:", [p for p in row if row[p] != "ok"], "| quiet:", [p for p in row if row[p] == "ok"], flush=True)
     return 0
 
 
